@@ -288,3 +288,86 @@ Proof.
   - rewrite <- (C19_bridge_query_sample s n g NF). unfold run_q.
     rewrite (call_query_ext _ _ (gen_ScipyModel_sample n)) by (apply dispatch_default_plain; exact NF). reflexivity.
 Qed.
+
+(* ===================================================================================================== *)
+(* 4. The selecting wrapper Univariate (Module Wr of Gen_uniwrap: the same translator, self a wrapper)      *)
+(* ===================================================================================================== *)
+(* the class-level methods of the selected instance: generated ones only.  [qi]: its four delegating queries by name *)
+Definition gen_inst (O : oracles) (qi : string -> M obs) : inst_impl :=
+  mkI qi (gen_query_sample O) (gen_ScipyModel_fit (gen_hook__fit_constant O) (gen_hook__fit O)) gen_ScipyModel__get_params.
+
+Definition wrun_fit (c : Wr.M unit) (u : uinst) (g : grng) : uinst * grng * option err :=
+  let '((u', src'), r) := c (u, RsGlobal g) in
+  (u', match src' with RsGlobal g' => g' | RsOwn _ => g end, match r with Ok _ => None | Err e => Some e end).
+Definition wrun_q (c : Wr.M obs) (u : uinst) (g : grng) : uinst * grng * obs :=
+  let '((u', src'), r) := c (u, RsGlobal g) in
+  (u', match src' with RsGlobal g' => g' | RsOwn _ => g end, match r with Ok o => o | Err e => ObsErr e end).
+Notation fit_wrapper_O O := (fit_wrapper (or_sfit O) (or_tg_opt O) (or_tolist O) (or_resample O) (or_select O) (or_choice O)).
+
+Lemma w_seq_eq : forall A (c : Wr.M unit) (k : Wr.M A) w,
+  Wr.m_seq c k w = let (w1, r) := c w in match r with Ok _ => k w1 | Err e => (w1, Err e) end.
+Proof. reflexivity. Qed.
+Lemma w_bind_eq : forall A B (c : Wr.M A) (k : A -> Wr.M B) w,
+  Wr.m_bind c k w = let (w1, r) := c w in match r with Ok a => k a w1 | Err e => (w1, Err e) end.
+Proof. reflexivity. Qed.
+
+Theorem C19_bridge2_wrapper_check_fit : forall u src,
+  Wr.gen_Univariate_check_fit (u, src) = ((u, src), if u_fitted u then Ok tt else Err NotFitted).
+Proof. intros. unfold Wr.gen_Univariate_check_fit, Wr.m_bind, Wr.m_ret, Wr.m_raise, Wr.py_get_fitted. cbn [fst snd]. destruct (u_fitted u); reflexivity. Qed.
+
+(* ScipyModel.fit around the generated hooks once more, with the generator it leaves installed (the global one) *)
+Theorem C19_bridge2_scipy_fit_full : forall O s X g,
+  gen_ScipyModel_fit (gen_hook__fit_constant O) (gen_hook__fit O) X (s, RsGlobal g)
+  = let '(s', g', e) := fit_scipy_O O s X g in ((s', RsGlobal g'), match e with None => Ok tt | Some e' => Err e' end).
+Proof.
+  intros O s X g. unfold gen_ScipyModel_fit, fit_scipy.
+  rewrite m_seq_eq, m_bind_eq, C19_bridge_check_constant_value.
+  destruct (d_const X) as [c|] eqn:EC; cbv beta iota.
+  - rewrite m_seq_eq, (C19_bridge2_hook_fit_constant O X c) by exact EC.
+    unfold model__fit_constant. rewrite EC. cbn [fst snd].
+    destruct (constant_params (or_sfit O) (set_constant (qj c) s) X c); reflexivity.
+  - rewrite m_seq_eq, C19_bridge2_hook_fit by exact EC. unfold model__fit. cbn [fst snd].
+    set (s0 := set_ov no_ov (set_const None s)).
+    destruct (s_fam s0) eqn:EF; try reflexivity.
+    + destruct (jv_q (if is_none (s_min s0) then qj (d_min X - EPS) else s_min s0)); [|reflexivity].
+      destruct (jv_q (if is_none (s_max s0) then qj (d_max X + EPS) else s_max s0)); [|reflexivity].
+      destruct (or_tg_opt O X q q0). reflexivity.
+    + match goal with |- context [if truthy ?a then ?b else ?c] => destruct (if truthy a then b else c) as [[ds g1]|e] end; [|reflexivity].
+      destruct (kde_get_model (set_params (Some [("dataset", ds)]) s0)) as [s2 [km|e]]; reflexivity.
+Qed.
+
+(* the subsample the selection runs on *)
+Lemma lt_raises_jlt : forall j n, lt_raises j = true -> jlt_nat j n = false.
+Proof. intros j n H. destruct j; try discriminate; reflexivity. Qed.
+
+(* self._instance = select_univariate(sample, self.candidates); self._instance.fit(X); self.fitted = True *)
+Ltac wrapper_fit_tail :=
+  rewrite w_seq_eq, w_bind_eq; unfold Wr.py_get_candidates at 1; cbv beta iota delta [fst snd];
+  rewrite w_bind_eq; unfold gen_select_univariate, py_best_candidate, py_get_instance_opt; cbv beta iota delta [fst snd];
+  match goal with |- context [match or_select ?o ?S ?C with _ => _ end] =>
+    destruct (match or_select o S C with Some i => nth_error C i | None => None end) as [c|] end;
+  [ match goal with |- context [get_instance_cand ?cc] => destruct (get_instance_cand cc) as [s0|e] end; cbn [bind]; [|reflexivity];
+    unfold Wr.py_set__instance at 1; cbv beta iota delta [fst snd];
+    rewrite w_seq_eq; unfold Wr.py_instance_fit, Wr.on_instance; cbn [fst snd u_instance setu_instance gen_inst i_fit];
+    rewrite C19_bridge2_scipy_fit_full;
+    match goal with |- context [fit_scipy_O ?o ?s ?x ?gg] => destruct (fit_scipy_O o s x gg) as [[s1 g2] [e'|]] end; reflexivity
+  | reflexivity ].
+
+Theorem C19_bridge2_wrapper_fit : forall O qi u X g,
+  wrun_fit (Wr.gen_Univariate_fit O (gen_inst O qi) X) u g = fit_wrapper_O O u X g.
+Proof.
+  intros O qi u X g. unfold wrun_fit, Wr.gen_Univariate_fit, fit_wrapper.
+  unfold Wr.py_jv_lt_len, Wr.m_lift.
+  rewrite w_bind_eq. rewrite w_bind_eq. rewrite w_bind_eq.
+  unfold Wr.py_get_selection_sample_size at 1. cbv beta iota delta [fst snd].
+  destruct (truthy (u_sel_ss u)) eqn:ET; cbv beta iota; cbn [andb].
+  - rewrite w_bind_eq. unfold Wr.py_get_selection_sample_size at 1. cbv beta iota delta [fst snd].
+    destruct (lt_raises (u_sel_ss u)) eqn:EL.
+    + rewrite (lt_raises_jlt _ (d_n X) EL). reflexivity.
+    + cbv beta iota. destruct (jlt_nat (u_sel_ss u) (d_n X)); cbv beta iota.
+      * rewrite w_bind_eq. unfold Wr.py_get_selection_sample_size at 1, Wr.py_np_random_choice. cbv beta iota delta [fst snd].
+        destruct (choice_size (u_sel_ss u)) as [k|e]; [|reflexivity]. cbv beta iota.
+        wrapper_fit_tail.
+      * unfold Wr.m_ret at 1. cbv beta iota. wrapper_fit_tail.
+  - unfold Wr.m_ret at 1. cbv beta iota. unfold Wr.m_ret at 1. cbv beta iota. wrapper_fit_tail.
+Qed.
